@@ -14,6 +14,7 @@ use dvh::mon::{self, catch, fail, fail_kf, Mon, Spec, R};
 use dvh::rng::Rng;
 use dvh::sites::set_fuel;
 use std::alloc::{GlobalAlloc, Layout, System};
+use std::ops::Add;
 use std::str::FromStr;
 use std::sync::atomic::{AtomicUsize, Ordering::Relaxed as Rlx};
 
@@ -151,7 +152,26 @@ fn float_surface<Rm: dashu_float::round::Round, const B: dashu_int::Word>(m: &mu
         8 => {
             judge(Exp::Never, fuel, "compare/format", || format!("{} {:?} {} {}", x, x.partial_cmp(&y), x == y, format!("{:.3}", y).len()))?;
             // the estimators are total: zero and the infinities have bounds too
-            judge(Exp::Never, fuel, "log2_bounds", || format!("{:?} {:?} {:?}", x.log2_bounds(), y.repr().log2_bounds(), x.log2_est()))
+            judge(Exp::Never, fuel, "log2_bounds", || format!("{:?} {:?} {:?}", x.log2_bounds(), y.repr().log2_bounds(), x.log2_est()))?;
+            // comparisons are decided from signs, exponents and digit counts when the operands are far apart: the cost must
+            // not grow with the exponent gap (a shift by the gap would need gigabytes), whatever the precision fields say
+            let far_e = *r.pick(&[10_000isize, 1_000_000, 1_000_000_000, isize::MAX / 4, -10_000, -1_000_000_000, isize::MIN / 4]);
+            let far = FBig::<Rm, B>::from_parts(IBig::from(r.range(1, 99) * if r.bool() { -1 } else { 1 }), far_e);
+            let near = match r.below(4) {
+                0 => FBig::<Rm, B>::ONE,
+                1 => FBig::<Rm, B>::NEG_ONE,
+                2 => far.clone().with_precision(0).value() >> far_e,
+                _ => if x.repr().is_finite() { x.clone().with_precision(0).value() } else { FBig::<Rm, B>::ONE },
+            };
+            // (logical bound instead of a wall clock: both operands are a few words long, so during this probe a single
+            // allocation above 1 MiB is refused; the mutated comparison then fails at once instead of running for minutes)
+            CAP.store(1 << 20, Rlx);
+            let res = judge(Exp::Never, fuel, "distant compare", || {
+                use dashu_base::AbsOrd;
+                format!("{:?} {:?} {} {:?} {:?}", near.partial_cmp(&far), far.partial_cmp(&near), near == far, near.abs_cmp(&far), far.clone().max(near.clone()).repr().exponent())
+            });
+            CAP.store(1 << 31, Rlx);
+            res
         }
         9 => judge(Exp::Never, fuel, "to_f64", || format!("{:?} {:?}", x.to_f64().value(), y.to_f32().value())),
         10 => {
@@ -437,6 +457,36 @@ fn case(m: &mut Mon, r: &mut Rng, idx: u64) {
                     _ => judge(Exp::Never, fuel, "pow", || format!("{}", q.pow(r.usize(6)).is_zero())),
                 }
             });
+        }
+        35 => {
+            // in-place growth that uses up the spare capacity of the buffer, then an addition that carries out of the top
+            // word, in every ownership form: no form may panic, whatever state the earlier steps left behind
+            let steps = 1 + r.usize(6);
+            let plan: Vec<(u64, usize, u64)> = (0..steps).map(|_| (r.below(3), 1 + r.usize(70), r.word() | 1)).collect();
+            let form = r.below(5);
+            op!("inplace_growth", Exp::Never, {
+                let mut x = ua.clone() + UBig::ONE;
+                for (what, sh, w) in &plan {
+                    match what {
+                        0 => x <<= *sh,
+                        1 => x *= *w,
+                        _ => x += &ub,
+                    }
+                }
+                let top = UBig::ONE << x.bit_len();
+                let comp = &top - &x;
+                let sum = match form {
+                    0 => x + comp,
+                    1 => x + &comp,
+                    2 => &comp + x,
+                    3 => {
+                        x += &comp;
+                        x
+                    }
+                    _ => IBig::from(x).add(IBig::from(comp)).try_into().unwrap(),
+                };
+                format!("{}", sum == top)
+            })
         }
         _ => {
             // Relaxed mirrors
